@@ -7,6 +7,7 @@
   * `Line: Contains<Line>` ⇔ both end points (⇔ every point) of the inner segment on the outer one.
 -/
 import GeoProofs.Lemmas.LocateLemmas
+import GeoProofs.Lemmas.LISpec
 
 namespace Geo.Proofs.C02Q
 open Geo Geo.Proofs.Kernel Geo.Proofs.Loc
@@ -307,18 +308,6 @@ theorem rectContainsRect_iff (amn amx bmn bmx : Pt) (hx : bmn.x ≤ bmx.x) (hy :
     exact ⟨⟨⟨hmn.1.1.1, hmx.1.2⟩, hmn.1.1.2⟩, hmx.2⟩
 
 /-! ### Line × Line -/
-
-/-- convexity of the closed segment -/
-theorem SegMem_convex {a b c d p : Pt} (hc : SegMem c a b) (hd : SegMem d a b) (hp : SegMem p c d) :
-    SegMem p a b := by
-  obtain ⟨s, s0, s1, cx, cy⟩ := hc
-  obtain ⟨t, t0, t1, dx, dy⟩ := hd
-  obtain ⟨r, r0, r1, px, py⟩ := hp
-  refine ⟨s + r * (t - s), ?_, ?_, ?_, ?_⟩
-  · nlinarith [mul_nonneg r0 t0, mul_nonneg (sub_nonneg.mpr r1) s0]
-  · nlinarith [mul_nonneg r0 (sub_nonneg.mpr t1), mul_nonneg (sub_nonneg.mpr r1) (sub_nonneg.mpr s1)]
-  · rw [px, cx, dx]; ring
-  · rw [py, cy, dy]; ring
 
 /-- `Line: Contains<Line>`, inner line not a single point: both end points on the outer segment. -/
 theorem lineContainsLine_iff_ends (a b c d : Pt) (hcd : c ≠ d) :
